@@ -385,9 +385,13 @@ class Rho:
     exact rational value mod p, everything else is a keyed hash of its
     description and input values."""
 
-    def __init__(self, key, p=PRIMES[0], salt=None):
+    def __init__(self, key, p=PRIMES[0], salt=None, stateful_ops=False):
         self.key = key if isinstance(key, bytes) else str(key).encode()
         self.p = p
+        # True (C01 round 10): operator units whose opcode is a random
+        # generator (vf.opcodes.STATEFUL_*) are leaves, one per creation,
+        # instead of functions of their inputs
+        self.stateful_ops = stateful_ops
         # generation-time analysis only: {rate: salt} re-draws the value of
         # every leaf (control, opaque unit) of that rate
         self.salt = salt or {}
@@ -444,6 +448,12 @@ class Rho:
                                (self._FLIP[special], (ins[1], ins[0])))
         return self.h('op', cls, special, ins)
 
+    def stateful_op(self, cls, special, ins, ordinal):
+        """the `ordinal`-th unit with a random-generator opcode over these
+        input values (the units of one such group are interchangeable: the
+        decoded side searches the bijection, see props/C01.py)"""
+        return self.h('stateful-op', cls, special, tuple(ins), ordinal)
+
 
 # generation-time analysis: base interpretation; audio leaves re-drawn; audio
 # and control leaves re-drawn; everything re-drawn (all over the same field)
@@ -480,6 +490,7 @@ class SourceEval:
         self.vals = []
         self.units = []
         self.ops = []
+        self.stateful_count = {}     # (cls, opcode, input values) -> creations
         self.unit_of_node = {}
         nodes = program['nodes'] if upto is None else program['nodes'][:upto]
         for i, nd in enumerate(nodes):
@@ -516,6 +527,12 @@ class SourceEval:
             raise ValueError('list valued operand (c02) has no value semantics')
         return v
 
+    def _stateful(self, cls, sp, ins):
+        key = (cls, sp, tuple(ins))
+        n = self.stateful_count.get(key, 0)
+        self.stateful_count[key] = n + 1
+        return self.rho.stateful_op(cls, sp, ins, n)
+
     def _arith(self, i, nd, v, chan=None):
         """one (channel of an) operator application on scalar values v"""
         r = self.rho
@@ -524,6 +541,12 @@ class SourceEval:
             if nd['op'] == 'neg':
                 return r.neg(v[0])
             sp = oc.UNARY_OPCODE[nd['op']]
+            if r.stateful_ops and sp in oc.STATEFUL_UNARY_OPCODES:
+                val = self._stateful('UnaryOpUGen', sp, (v[0],))
+                self.ops.append({'node': i, 'cls': 'UnaryOpUGen', 'special': sp,
+                                 'ins': [v[0]], 'val': val, 'name': nd['op'],
+                                 'chan': chan, 'stateful': True})
+                return val
             val = r.op('UnaryOpUGen', sp, (v[0],))
             self.ops.append({'node': i, 'cls': 'UnaryOpUGen', 'special': sp,
                              'ins': [v[0]], 'val': val, 'name': nd['op'],
@@ -537,6 +560,12 @@ class SourceEval:
             if op == '*': return r.mul(a, b)
             if op == '/': return r.div(a, b)
             sp = oc.BINARY_OPCODE[op]
+            if r.stateful_ops and sp in oc.STATEFUL_BINARY_OPCODES:
+                val = self._stateful('BinaryOpUGen', sp, (a, b))
+                self.ops.append({'node': i, 'cls': 'BinaryOpUGen',
+                                 'special': sp, 'ins': [a, b], 'val': val,
+                                 'name': op, 'chan': chan, 'stateful': True})
+                return val
             val = r.op('BinaryOpUGen', sp, (a, b))
             self.ops.append({'node': i, 'cls': 'BinaryOpUGen', 'special': sp,
                              'ins': [a, b], 'val': val, 'name': op,
@@ -1402,6 +1431,90 @@ class Gen:
             return self.mk_bin(op, b, a, f)
         return self.mk_bin(op, a, b)
 
+    def p_stateful_op(self):
+        """C01 round 10 (stream r only): the SAME operator with a random-
+        generator opcode (vf.opcodes.STATEFUL_*) applied two or three times to
+        the same operand object(s) / to equal constants.  Each application is
+        a generator of its own, so the definition must hold one unit per
+        application, each consumer wired to its own one.  Consumer shapes: the
+        units themselves as channels of one Out, the per-voice idiom
+        (`c + dev` into a tagged oscillator per voice), a second random
+        operator on top of each, all of them combined by one operator
+        (`r0 - r1` is not 0), one of them unreferenced."""
+        rng = self.rng
+        a = self.pick_node(maxdepth=self.max_depth - 4)
+        if a is None:
+            return None
+        unary = rng.random() < 0.6
+        op = rng.choice(oc.STATEFUL_UNARY if unary else oc.STATEFUL_BINARY)
+        n = rng.choice([2, 2, 2, 3])
+        bs = [None] * n
+        if not unary:
+            kind = rng.choice(['const', 'const', 'spelling', 'node', 'self'])
+            if kind == 'self':
+                bs = [a] * n
+            elif kind == 'node':
+                b = self.pick_node(nsc=False, maxdepth=self.max_depth - 4)
+                bs = [b if b is not None else self.const()] * n
+            elif kind == 'spelling':
+                # equal constants written differently: 440 and 440.0
+                c = rng.choice([2, 3, 4, 100, 440, -2])
+                bs = [['c', float(c) if k % 2 else c] for k in range(n)]
+            else:
+                bs = [self.const()] * n
+        copies = []
+        for k in range(n):
+            r = self.mk_un(op, a) if unary else self.mk_bin(op, a, bs[k], 0)
+            if r is None:
+                return None
+            copies.append(r)
+        self.features.add('stateful-operator-repeated')
+        self.features.add('stateful-operator-' + ('unary' if unary else 'binary'))
+        shape = rng.choice(['direct', 'voices', 'voices', 'nested', 'combine',
+                            'dead-one', 'pure-twin'])
+        self.features.add('stateful-operator-shape-' + shape)
+        if shape == 'nested':
+            op2 = rng.choice(oc.STATEFUL_UNARY)
+            copies = [self.mk_un(op2, r) or r for r in copies]
+        elif shape == 'dead-one':
+            dead = copies.pop()
+            self.uses[dead[1]] += 1000       # stays unreferenced
+            self.info[dead[1]].depth = 99
+        elif shape == 'combine':
+            t = copies[0]
+            for r in copies[1:]:
+                t = self.mk_bin(rng.choice(['-', '-', '+', '*', 'absdif', 'min']),
+                                t, r, 0) or t
+            copies = [t]
+        elif shape == 'pure-twin':
+            # contrast: a stateless operator twice over the same operand (one
+            # unit for both is an equivalent graph)
+            op2 = rng.choice(['abs', 'squared', 'midicps', 'tanh', 'floor'])
+            copies += [x for x in (self.mk_un(op2, a), self.mk_un(op2, a)) if x]
+        if shape in ('voices', 'nested', 'pure-twin') or rng.random() < 0.3:
+            c = ['c', rng.choice([100, 440, 2, 0.5, 1, 0])]
+            bop = rng.choice(['+', '+', '*', '-'])
+            copies = [(self.mk_bin(bop, c, r, 0) if rng.random() < 0.5
+                       else self.mk_bin(bop, r, c, 0)) or r for r in copies]
+        hi = max(self.oinfo(r).hi for r in copies)
+        if hi <= 1 and shape in ('direct', 'combine', 'dead-one') \
+                and rng.random() < 0.7:
+            return self.add({'k': 'sink', 'cls': 'Out', 'm': 'kr',
+                             'bus': ['c', rng.randrange(0, 8)],
+                             'chans': copies})
+        m = 'ar' if hi == 2 or rng.random() < 0.5 else 'kr'
+        oscs = []
+        for r in copies:
+            t = self.tag()
+            o = self.add({'k': 'ugen', 'cls': rng.choice(['SinOsc', 'LFSaw']),
+                          'm': m, 'args': [r, ['c', t]], 'tag': t})
+            if o is not None:
+                oscs.append(o)
+        if not oscs:
+            return None
+        return self.add({'k': 'sink', 'cls': 'Out', 'm': m,
+                         'bus': ['c', rng.randrange(0, 8)], 'chans': oscs})
+
     def p_madd(self):
         a = self.pick_node()
         if a is None:
@@ -2018,14 +2131,18 @@ C01_PRODUCTIONS = [
 
 
 C01_EXTRA_PRODUCTIONS = [('p_effect_unit', 14), ('p_demand', 9)]
+C01_STATEFUL_PRODUCTIONS = [('p_stateful_op', 9)]
 
 
-def gen_program(rng, profile='c01', name=None, extra=False, **kw):
+def gen_program(rng, profile='c01', name=None, extra=False, stateful=False,
+                **kw):
     """A random valid program of the C01 domain (profile 'c01') - scalar
     valued nodes only, every operator has a unit-generator operand, rate
     sensitive positions get rate-stable signals.  extra=True: the productions
     of the extension table (units with side effects beyond their output,
-    demand-rate operands) take part; a stream of its own."""
+    demand-rate operands) take part; a stream of its own.  stateful=True
+    (a third stream): repeated operator units with a random-generator opcode
+    (p_stateful_op), at least one group per program."""
     g = Gen(rng, profile, name=name, **kw)
     g.folding_agnostic = rng.random() < (0.1 if extra else 0.25)
     g.params(rng.choice([0, 0, 1, 2, 2, 3, 4, 6]), arrays=rng.random() < 0.35)
@@ -2035,11 +2152,18 @@ def gen_program(rng, profile='c01', name=None, extra=False, **kw):
     steps = rng.choice([rng.randint(1, 6), rng.randint(4, 14),
                         rng.randint(8, 24)])
     names, weights = zip(*(C01_PRODUCTIONS + C01_EXTRA_PRODUCTIONS
-                           if extra else C01_PRODUCTIONS))
+                           if extra else C01_PRODUCTIONS
+                           + C01_STATEFUL_PRODUCTIONS if stateful
+                           else C01_PRODUCTIONS))
     for _ in range(steps):
         if len(g.prog['nodes']) >= g.max_nodes:
             break
         getattr(g, rng.choices(names, weights)[0])()
+    if stateful:
+        for _ in range(4):
+            if 'stateful-operator-repeated' in g.features \
+                    or g.p_stateful_op() is not None:
+                break
     for _ in range(rng.choice([1, 1, 2, 2, 3, 4])):
         g.p_sink()
     g.finish()
